@@ -384,6 +384,19 @@ fn gen_c12(cfg: &GenCfg, rng: &mut Rng, w: &mut dyn Write, kind: &str) {
                     writeln!(w, "satcount f{} {} {} cache=shared", f, vars, ty).unwrap();
                 }
             }
+            if f % 64 == 40 && !zbdd(kind) {
+                // reorder between uses of the shared cache: reordering frees and recycles node ids
+                // without an explicit gc, so a cache that survives it would serve counts of other
+                // functions
+                let mut o2: Vec<u32> = (0..n).collect();
+                rng.shuffle(&mut o2);
+                writeln!(w, "order {}", order_str(&o2)).unwrap();
+                for j in 0..6 {
+                    writeln!(w, "op tr{}_{} {} f{} f{}", f, j, rng.pick(&BIN_OPS), rng.below(nf), rng.below(nf)).unwrap();
+                    writeln!(w, "satcount tr{}_{} {} nat cache=shared", f, j, n).unwrap();
+                    writeln!(w, "satcount tr{}_{} {} u64 cache=shared", f, j, n).unwrap();
+                }
+            }
             if f % 32 == 31 {
                 // recycle node ids: drop temporaries, collect, rebuild
                 writeln!(w, "op tmp{} xor f{} f{}", f, f, (f * 7 + 3) % nf).unwrap();
@@ -409,6 +422,25 @@ fn gen_c12(cfg: &GenCfg, rng: &mut Rng, w: &mut dyn Write, kind: &str) {
                 writeln!(w, "satcount {} {} {} cache=c{}", f, vars, ty, rng.below(2)).unwrap();
             } else {
                 writeln!(w, "satcount {} {} {}", f, vars, ty).unwrap();
+            }
+            if s % 25 == 12 && !zbdd(kind) {
+                // a reordering between uses of one cache (ids are recycled without an explicit gc)
+                for j in 0..4 {
+                    writeln!(w, "op pre{}_{} xor {} {}", s, j, rng.pick(&pool), rng.pick(&pool)).unwrap();
+                    writeln!(w, "satcount pre{}_{} {} nat cache=c0", s, j, n).unwrap();
+                    writeln!(w, "satcount pre{}_{} {} nat cache=c1", s, j, n).unwrap();
+                }
+                for j in 0..4 {
+                    writeln!(w, "drop pre{}_{}", s, j).unwrap();
+                }
+                rng.shuffle(&mut order);
+                writeln!(w, "order {}", order_str(&order)).unwrap();
+                for j in 0..4 {
+                    writeln!(w, "op post{}_{} {} {} {}", s, j, rng.pick(&BIN_OPS), rng.pick(&pool), rng.pick(&pool)).unwrap();
+                    writeln!(w, "satcount post{}_{} {} nat cache=c0", s, j, n).unwrap();
+                    writeln!(w, "satcount post{}_{} {} nat cache=c1", s, j, n).unwrap();
+                    writeln!(w, "drop post{}_{}", s, j).unwrap();
+                }
             }
             if s % 25 == 24 {
                 writeln!(w, "op junk{} xor {} {}", s, rng.pick(&pool), rng.pick(&pool)).unwrap();
